@@ -23,6 +23,7 @@ pub static C13: Scenario = Scenario {
     gen: |c, i| gen(c, i, "C13"),
     judge: |run, obs| oracle::judge("C13", run, obs),
     assumptions: &["read-back uses a validator-free GenericParser; a build whose token cannot be read back is counted unjudged (round trip is C01/C02)"],
+    exhaustive: &["all call sequences of length 0..=4 (quick) / 0..=5 (thorough) over the 10-symbol alphabet, plus one final build"],
 };
 
 pub static C17: Scenario = Scenario {
@@ -36,6 +37,7 @@ pub static C17: Scenario = Scenario {
     gen: |c, i| gen(c, i, "C17"),
     judge: |run, obs| oracle::judge("C17", run, obs),
     assumptions: &["failing builds (entropy fault / malformed key) are expected to return Err and leave the duplicate verdict unchanged"],
+    exhaustive: &["all call sequences of length 0..=3 (quick) / 0..=5 (thorough) over the 12-symbol alphabet, plus one final build"],
 };
 
 fn tc(r: &mut Rng, i: u64) -> i128 {
